@@ -1,6 +1,6 @@
 (** Dispatch table used by the extracted runner: property number -> model runner / monitor. *)
 From RRE Require Import Base.Sx.
-From RRE Require Model.Watermark Model.Tms Model.ProofGraph Model.Undo.
+From RRE Require Model.Watermark Model.Tms Model.ProofGraph Model.Undo Model.Module.
 Open Scope Z_scope.
 
 Definition run_by_id (id : Z) (c : sx) : sx :=
@@ -9,14 +9,20 @@ Definition run_by_id (id : Z) (c : sx) : sx :=
   | 10 => Undo.run_sx c
   | 13 => Watermark.run_sx c
   | 17 => ProofGraph.run_sx c
+  | 18 => Module.run_sx c
   | _ => sx_bad
   end.
 
-Definition ok_by_id (id : Z) (c o : sx) : bool :=
+(** verdict of the monitor: 1 = the observation satisfies the property's statement on this case,
+    0 = it does not, k >= 2 = it does not, and the failure is exactly of the (known) class k *)
+Definition b2z (b : bool) : Z := if b then 1 else 0.
+
+Definition ok_by_id (id : Z) (c o : sx) : Z :=
   match id with
-  | 8 => Tms.ok_sx c o
-  | 10 => Undo.ok_sx c o
-  | 13 => Watermark.ok_sx c o
-  | 17 => ProofGraph.ok_sx c o
-  | _ => false
+  | 8 => b2z (Tms.ok_sx c o)
+  | 10 => b2z (Undo.ok_sx c o)
+  | 13 => b2z (Watermark.ok_sx c o)
+  | 17 => b2z (ProofGraph.ok_sx c o)
+  | 18 => Module.ok_sx c o
+  | _ => 0
   end.
